@@ -252,6 +252,9 @@ func (r *run) scenario(x *vs.X) func(end, msg string) error {
 	hconf.AutoTag.Enabled = true
 	hconf.SharedClient.Enabled = c.Shared
 	hconf.SharedClient.ClientNumber = 1
+	if c.Instances >= 3 {
+		hconf.SharedClient.ClientNumber = 2 // instances bound from their own goroutines draw from a pool of two
+	}
 	cc := func(phttp.ClientConfig, string) phttp.Client { return httpClient{} }
 	var shared any
 	var newGun func() (core.Gun, error)
@@ -383,6 +386,10 @@ func cells(thorough bool) []Cell {
 		}
 		if !strings.HasPrefix(p, "grpc") {
 			out = append(out, Cell{Pool: p, Result: "discard", Instances: 2, Shots: 4, Shared: true, Bound: 1})
+			if p == "uri" || p == "http-scenario" {
+				// three instances: the second and third are created (and bound) concurrently
+				out = append(out, Cell{Pool: p, Result: "discard", Instances: 3, Shots: 3, Shared: true, Bound: 1})
+			}
 		}
 		if !strings.HasSuffix(p, "-scenario") {
 			// every pool kind with overdue tokens: the discard branch releases its ammo and reports a sample of its own
